@@ -114,6 +114,61 @@ impl EepromRange {
 @*/
 }
 
+/// stand-in for heapless::Vec<u8, N>
+pub struct HVecN<const N: usize> { pub v: Vec<u8> }
+impl<const N: usize> HVecN<N> {
+    #[verifier::external_body]
+    pub fn new() -> (r: Self) ensures r.v@.len() == 0 { unimplemented!() }
+    /// `unsafe fn set_len`: SAFETY condition new_len <= capacity (the bytes exposed are arbitrary until written)
+    #[verifier::external_body]
+    pub fn set_len(&mut self, new_len: usize)
+        requires new_len <= N
+        ensures final(self).v@.len() == new_len
+    { unimplemented!() }
+    /// `&mut buf` (DerefMut to the slice)
+    #[verifier::external_body]
+    pub fn as_mut_slice(&mut self) -> (r: &mut [u8])
+        ensures r@ == old(self).v@, final(self).v@ == final(r)@
+    { unimplemented!() }
+}
+
+/// byte offset of the k-th string of a Strings category whose first string starts at `base`: each string is a length
+/// byte followed by that many bytes (ETG2010 table 6)
+pub open spec fn str_off(p: Prov, base: int, k: nat) -> int
+    decreases k
+{
+    if k == 0 { base } else { let o = str_off(p, base, (k - 1) as nat); o + 1 + p.byte(o) as int }
+}
+
+/*@fragment file=src/subdevice/eeprom.rs impl="impl<P> SubDeviceEeprom<P>" fn=find_string from="let num_strings = reader.read_byte().await?;" to="reader.read_exact(&mut buf).await?;" name=find_string_raw generics="<const N: usize>" qual="pub async" sig="reader: EepromRange, search_index: u8 -> (r: Result<Option<HVecN<N>>, Error>)" tail="Ok(Some(buf))" subst="heapless::Vec::<u8, N>::new()=>HVecN::<N>::new()@@reader.read_exact(&mut buf)=>reader.read_exact(buf.as_mut_slice())" props=C12,C13
+    requires reader.wf()
+    ensures
+        // (search_index is the 0-based index; reader stands at the string count byte)
+        r is Ok && r->Ok_0 is None ==> search_index >= reader.reader.byte(reader.byte_pos as int),
+        // Some => exactly the bytes stored for that string: the length byte found after skipping the preceding strings,
+        // then that many bytes - never more than the caller's capacity, and a string of exactly the capacity is delivered
+        r is Ok && r->Ok_0 is Some ==> search_index < reader.reader.byte(reader.byte_pos as int) && ({
+            let o = str_off(reader.reader, reader.byte_pos + 1, search_index as nat);
+            let len = reader.reader.byte(o) as int;
+            &&& len <= N
+            &&& (r->Ok_0->Some_0).v@.len() == len
+            &&& forall|i: int| 0 <= i < len ==> (r->Ok_0->Some_0).v@[i] == reader.reader.byte(o + 1 + i)
+        }),
+@entry
+    let ghost rd0 = reader.reader;
+    let ghost base: int = reader.byte_pos + 1;
+    let mut reader = reader;
+@loop 0
+    invariant
+        reader.wf(), reader.reader.mem_eq(&rd0),
+        reader.byte_pos as int == str_off(rd0, base, i as nat),
+@before "return Err(Error::StringTooLong"
+    proof {
+        // refused only when the stored string really is longer than the destination
+        assert(string_len > N);
+    }
+@*/
+
 /// the crc crate's table-driven CRC-8 instance STATION_ALIAS_CRC (src/eeprom/mod.rs: poly 0x07, init 0xff): `crc8_etg` is
 /// the bit-by-bit CRC-8 of the property statement; table == bitwise on every 14-byte input is Kani eeprom_alias::alias_crc_table
 pub uninterp spec fn crc8_etg(b: Seq<u8>) -> u8;
